@@ -8,11 +8,14 @@ THEOREMS = [
     "Mtv.Tlgen.parse_document",
     "Mtv.Tlgen.parse_structure",
     "Mtv.Tlgen.parse_definition",
+    "Mtv.Tlgen.parse_terminates",
     "Mtv.Tlgen.cursor_index_arithmetic",
     "Mtv.Tlgen.classify_spec",
     "Mtv.Tlgen.classify_groups",
     "Mtv.Tlgen.ctor_name_rule",
     "Mtv.Tlgen.emit_ids",
+    "Mtv.Tlgen.emit_fields",
+    "Mtv.Tlgen.emit_flag_index",
 ]
 RULE = ("operations: real tlparser.ParseSchema vs the Lean model on PRNG-generated schemas in varying layouts (enums, "
         "single/multi-constructor types, constructor/type name clashes, every primitive, flags on bits 0..31 and shared "
